@@ -265,8 +265,10 @@ impl From<&Value> for Value {
 impl PartialEq for Value {
     fn eq(&self, other: &Self) -> bool {
         match (self, other) {
-            (Value::Map(a), Value::Map(b)) => a == b,
-            (Value::List(a), Value::List(b)) => a == b,
+            // Compare the contents, not the `Arc`s: `Arc<T: Eq>` equality short-circuits on pointer
+            // identity, which would make a list or map containing NaN equal to itself.
+            (Value::Map(a), Value::Map(b)) => *a.map == *b.map,
+            (Value::List(a), Value::List(b)) => **a == **b,
             (Value::Function(a1, a2), Value::Function(b1, b2)) => a1 == b1 && a2 == b2,
             (Value::Int(a), Value::Int(b)) => a == b,
             (Value::UInt(a), Value::UInt(b)) => a == b,
